@@ -176,7 +176,10 @@ impl Watch {
                     return;
                 }
                 if !ctx.owed.contains(x) && !ctx.allowed.contains(x) {
-                    self.flag(&["C08", "C06"], "unexpected-release", format!("{what}: id {x} released although its exchange is not complete"));
+                    // at close time this is something half-done on the ending connection reaching
+                    // into the session that outlives it (C10)
+                    let props: &[&'static str] = if what.starts_with("notify_closed") { &["C08", "C06", "C10"] } else { &["C08", "C06"] };
+                    self.flag(props, "unexpected-release", format!("{what}: id {x} released although its exchange is not complete"));
                     return;
                 }
                 released.insert(*x);
@@ -285,7 +288,7 @@ impl Watch {
         }
         // C12: vacancy
         if self.m.ver == 5 && self.m.st == St::Connected {
-            let vac = self.ep.vacancy();
+            let Some(vac) = self.guarded("get_receive_maximum_vacancy_for_send()", &["C12"], |ep| ep.vacancy()) else { return };
             match self.m.rm_send {
                 Some(mx) => {
                     if !self.m.flow_ambiguous {
